@@ -364,6 +364,19 @@ class G:
         self.ctor_counts = {}
         self.small = False        # keep amounts short so that large constructors fit one cell
 
+    # ---- systematic enumeration of the structural decisions (Maybe present/absent, constructor alternatives) near the top of a value
+    script, trace, script_depth = None, None, 2
+
+    def scripted(self, depth):
+        return self.script is not None and depth <= self.script_depth
+
+    def decide(self, n, depth):
+        i = len(self.trace)
+        c = self.script[i] if i < len(self.script) else 0
+        c = min(c, n - 1)
+        self.trace.append((c, n))
+        return c
+
     def uint(self, n):
         r = self.rng
         return r.choice([0, 1, (1 << n) - 1, 1 << (n - 1), (1 << (n - 1)) - 1, r.getrandbits(n), r.getrandbits(n)])
@@ -433,7 +446,8 @@ class G:
             m = dict(m, init=None, body=rc.RC('1'))
             return {'msg': m, 'placement': ('inline', 'ref')}
         if k == 'maybe':
-            return None if r.random() < 0.4 else self.value(ty[1], depth)
+            present = self.decide(2, depth) if self.scripted(depth) else (r.random() >= 0.4)
+            return self.value(ty[1], depth) if present else None
         if k == 'ref':
             return self.value(ty[1], depth)
         if k == 'seq':
@@ -442,6 +456,8 @@ class G:
             ctors = TYPES[ty[1]]
             if forced:
                 c = next(c for c in ctors if c[0] == forced)
+            elif self.scripted(depth) and len(ctors) > 1:
+                c = ctors[self.decide(len(ctors), depth)]
             else:
                 cands = ctors
                 if depth >= 2:
@@ -482,6 +498,37 @@ class G:
                 return _m.setdefault(id(x), self.value(ty[3], depth + 1))
             return {'items': items, 'extra_of': extra_of, 'combine': lambda a, b: a, 'empty_extra': self.value(ty[3], depth + 1)}
         raise ValueError(ty)
+
+
+def enum_values(g, name, cname, limit, tries=4):
+    """values of constructor `cname` covering every combination of the structural decisions (Maybe fields, constructor alternatives of sub-fields) down to
+    g.script_depth levels, odometer order, at most `limit` values; leaf values stay random.  Yields (value, writer) that fit one cell."""
+    script, n = [], 0
+    while n < limit:
+        got = None
+        for attempt in range(tries):
+            g.script, g.trace = list(script), []
+            g.small = attempt >= 1
+            try:
+                v = g.value(t(name), 0, forced=cname)
+                w = T.W()
+                enc(w, t(name), v)
+                w.cell()
+                got = (v, w)
+                break
+            except rc.RefError:
+                continue
+        trace = g.trace
+        g.script, g.trace, g.small = None, None, False
+        if got is not None:
+            n += 1
+            yield got
+        i = len(trace) - 1
+        while i >= 0 and trace[i][0] + 1 >= trace[i][1]:
+            i -= 1
+        if i < 0:
+            return
+        script = [c for c, _ in trace[:i]] + [trace[i][0] + 1]
 
 
 def _recursive(ctor):
